@@ -3,6 +3,7 @@ package enga
 import (
 	"encoding/json"
 	"fmt"
+	"strings"
 
 	"github.com/orda-io/orda/client/pkg/errors"
 	"github.com/orda-io/orda/client/pkg/iface"
@@ -192,6 +193,63 @@ func (r *run) twinLocal(p *replica, e Ev, fresh []*model.Operation) {
 		return
 	}
 	r.twinReplay(p, p.tw.rep, []Ev{e}, false, fresh)
+}
+
+// twinOutcome: a read, or a call the original refused, is made on the restored instance too: it has to
+// end the same way (refused or not, the same value of the same Go types, no panic).
+func (r *run) twinOutcome(p *replica, c *call, ret interface{}, err error) {
+	t := p.tw.rep
+	var ret2 interface{}
+	var err2 error
+	msg, fp := safely(func() { ret2, err2 = c.do(t.api) })
+	r.probe("twin-outcome-compared")
+	if msg != "" {
+		r.fail("twin", "C10.twin-bisimilar", "outcome-panic/"+fp, "restored instance panicked on %s, which the original answered with (%s, err=%v): %s", c.name, kernel.Canon(ret), err, msg)
+		panic(abortRun{})
+	}
+	if (err == nil) != (err2 == nil) {
+		r.fail("twin", "C10.twin-bisimilar", r.cfg.Kind+"/outcome-differs", "%s: original err=%v, restored instance err=%v", c.name, err, err2)
+		return
+	}
+	if err == nil && c.read {
+		if a, b := kernel.Canon(ret), kernel.Canon(ret2); a != b {
+			r.fail("twin", "C10.twin-bisimilar", r.cfg.Kind+"/read-differs", "%s: original returned %s, restored instance %s", c.name, a, b)
+		} else if a, b := typeSig(ret), typeSig(ret2); a != b {
+			r.fail("twin", "C10.twin-bisimilar", r.cfg.Kind+"/read-type-differs", "%s: original returned Go value of shape %s, restored instance %s (same JSON text %s)", c.name, a, b, kernel.Canon(ret))
+		}
+	}
+}
+
+// typeSig renders the Go types of a value read from a datatype (containers recursively).
+func typeSig(v interface{}) string {
+	switch x := v.(type) {
+	case nil:
+		return "nil"
+	case map[string]interface{}:
+		var sb strings.Builder
+		sb.WriteString("{")
+		for _, k := range kernel.SortedKeys(x) {
+			sb.WriteString(k + ":" + typeSig(x[k]) + ",")
+		}
+		return sb.String() + "}"
+	case []interface{}:
+		var sb strings.Builder
+		sb.WriteString("[")
+		for _, e := range x {
+			sb.WriteString(typeSig(e) + ",")
+		}
+		return sb.String() + "]"
+	case orda.Document:
+		return "Document(" + typeSig(x.GetValue()) + ")"
+	case []orda.Document:
+		var sb strings.Builder
+		sb.WriteString("[]Document[")
+		for _, e := range x {
+			sb.WriteString(typeSig(e.GetValue()) + ",")
+		}
+		return sb.String() + "]"
+	}
+	return fmt.Sprintf("%T", v)
 }
 
 func (r *run) twinTx(p *replica, e Ev, fresh []*model.Operation) {
